@@ -19,3 +19,67 @@ Proof.
   unfold spn_mapped. destruct (nth_error spans p) as [[s1 e1]|]; [|reflexivity].
   rewrite Nat.eqb_refl. reflexivity.
 Qed.
+
+(* ---------- &str ---------- *)
+Lemma utf8_width_pos t : 1 <= utf8_width t.
+Proof. unfold utf8_width. destruct (N.ltb t 128), (N.ltb t 2048), (N.ltb t 65536); lia. Qed.
+
+(* A cursor that is the offset of character i decodes to character i and the offset of i+1:
+   the byte-offset machine refines the index machine, and the unchecked decode is never reached
+   off a boundary as long as cursors come from begin()/next() *)
+Lemma str_refines : forall l i, i <= length l ->
+  str_decode l (str_off l i) =
+    Some (match nth_error l i with Some t => Some (t, str_off l (S i)) | None => None end).
+Proof.
+  induction l as [|t r IH]; intros i Hi; cbn in Hi.
+  - destruct i; [reflexivity | lia].
+  - destruct i as [|j]; [cbn; destruct r; now rewrite Nat.add_0_r|].
+    cbn [str_off str_decode nth_error]. pose proof (utf8_width_pos t).
+    destruct (utf8_width t + str_off r j) eqn:E; [lia|]. rewrite <- E.
+    replace (utf8_width t + str_off r j <? utf8_width t) with false by (symmetry; apply Nat.ltb_ge; lia).
+    replace (utf8_width t + str_off r j - utf8_width t) with (str_off r j) by lia.
+    rewrite IH by lia. destruct (nth_error r j); reflexivity.
+Qed.
+
+(* offsets are strictly increasing, so the byte -> character index conversion of spans is well defined *)
+Lemma str_off_mono : forall l i j, i < j -> j <= length l -> str_off l i < str_off l j.
+Proof.
+  induction l as [|t r IH]; intros i j Hij Hj; cbn in Hj; [lia|].
+  destruct j as [|j]; [lia|]. pose proof (utf8_width_pos t).
+  destruct i as [|i]; cbn [str_off]; [lia|]. specialize (IH i j). lia.
+Qed.
+
+(* ---------- Stream ---------- *)
+(* cache ++ rest is always the token sequence; pulled = |cache| *)
+Definition stream_inv (l : list tok) (s : stream) : Prop :=
+  s_cache s ++ s_rest s = l /\ s_pulled s = length (s_cache s).
+
+Lemma stream_init_inv l : stream_inv l (stream_init l).
+Proof. split; reflexivity. Qed.
+
+(* For every batch size B > 0 and every cursor obtained from earlier calls (c <= |cache|): next returns
+   the token of the canonical sequence, the invariant is kept, the cache only grows (each item is pulled
+   at most once and in order), however the parser moved the cursor back in between *)
+Lemma stream_refines B l s c t s' :
+  0 < B -> stream_inv l s -> c <= length (s_cache s) ->
+  stream_next B s c = (t, s') ->
+  t = nth_error l c /\ stream_inv l s' /\
+  (exists more, s_cache s' = s_cache s ++ more) /\
+  (match t with Some _ => S c <= length (s_cache s') | None => True end).
+Proof.
+  intros HB [Hl Hp] Hc H. unfold stream_next in H.
+  destruct (Nat.leb (length (s_cache s)) c) eqn:E; injection H as <- <-; unfold stream_inv; cbn [s_cache s_rest s_pulled].
+  - apply Nat.leb_le in E. assert (c = length (s_cache s)) by lia. subst c.
+    repeat split.
+    + rewrite <- Hl. rewrite !nth_error_app2 by lia. rewrite Nat.sub_diag.
+      destruct (s_rest s) as [|x r]; [destruct B; reflexivity|]. destruct B; [lia|]. reflexivity.
+    + rewrite <- app_assoc, firstn_skipn. exact Hl.
+    + rewrite app_length, Hp. reflexivity.
+    + eexists; reflexivity.
+    + rewrite nth_error_app2 by lia. rewrite Nat.sub_diag.
+      destruct (s_rest s) as [|x r]; [destruct B; cbn; auto|]. destruct B; [lia|]. cbn. rewrite app_length. cbn. lia.
+  - apply Nat.leb_gt in E. repeat split; auto.
+    + rewrite <- Hl. now rewrite nth_error_app1 by lia.
+    + exists []. now rewrite app_nil_r.
+    + destruct (nth_error (s_cache s) c) eqn:En; auto.
+Qed.
